@@ -37,6 +37,12 @@ def run(prog: Program, rep: Report, tier: str):
     rule_wire(prog, rep, "C03.wire")
     rule_default(prog, rep)
     rule_merge_transforms(prog, rep, "C03.merge")
+    # merge_transforms builds Chain(...).merge_chains(): the flattening must keep the order of the bijections
+    from .merge import rule_flatten
+    rule_flatten(prog, rep, "C03.flatten")
+    # the public log_prob hands the change-of-variables value through unchanged (only NaN -> -inf): -inf stays -inf
+    from .c05 import rule_nan
+    rule_nan(prog, rep, "C03.public")
     rule_factories(prog, rep)
     rule_flow_bijections(prog, rep, "C03")
     rule_numpyro(prog, rep)
